@@ -27,6 +27,12 @@ fn compute_unsubscribe_packet_length_properties5(packet: &UnsubscribePacket) -> 
         total_remaining_length += filter.len();
     }
 
+    if total_remaining_length > MAXIMUM_VARIABLE_LENGTH_INTEGER {
+        let message = "compute_unsubscribe_packet_length_properties5 - remaining length exceeds the protocol maximum (2 ^ 28 - 1)";
+        error!("{}", message);
+        return Err(GneissError::new_encoding_failure(message));
+    }
+
     Ok((total_remaining_length as u32, unsubscribe_property_section_length as u32))
 }
 
